@@ -47,7 +47,8 @@ impl<R: Round> Context<R> {
 
         // adjust the signifcand so that the exponent is even
         let digits = x.digits() as isize;
-        let shift = self.precision as isize * 2 - ((digits + x.exponent) & 1) - digits;
+        // the parity of digits + exponent, without forming the sum (it overflows next to isize::MAX)
+        let shift = self.precision as isize * 2 - ((digits ^ x.exponent) & 1) - digits;
         let (signif, low, low_digits) = if shift > 0 {
             (shl_digits::<B>(&x.significand, shift as usize), IBig::ZERO, 0)
         } else {
@@ -58,7 +59,8 @@ impl<R: Round> Context<R> {
 
         let (root, rem) = signif.unsigned_abs().sqrt_rem();
         let root = Sign::Positive * root;
-        let exp = (x.exponent - shift) / 2;
+        // exponent - shift is even and may leave the range of isize although its half never does
+        let exp = ((x.exponent as i128 - shift as i128) / 2) as isize;
 
         let res = if rem.is_zero() && low.is_zero() {
             Approximation::Exact(root)
